@@ -843,6 +843,16 @@ class Interp:
                 if a2 <= b2:
                     out.append((a2, b2))
             return out
+        if n is None and st.rng and not bv.has_top() and any(isinstance(b, tuple) and b[0] == 'v' and b[3] for b in bv.bits):
+            # !x (= MAX - x): the mirror image of x's range
+            nb = bv_not(bv)
+            n2 = self.sym_of(nb, st)
+            if n2 is not None and n2 in st.rng:
+                m_ = (1 << bv.w) - 1
+                out = []
+                for a, b in self.rng_of(st, nb):
+                    out.append((m_ - b, m_ - a))
+                return sorted(out)
         aff = bv.aff if bv.has_top() else (bv.get_aff() if st.rng else None)
         if aff is not None and aff.terms:
             alo, ahi = self.aff_range(st, aff)
@@ -1055,6 +1065,9 @@ class Interp:
             # relational tightening for a - b when b <= a is known
             if b0 == 'Sub' and self.known_le(st, b, a):
                 lo = max(lo, 0)
+            if b0 == 'Add' and not a.has_top() and not b.has_top() and (self.known_le(st, b, bv_not(a)) or self.known_le(st, a, bv_not(b))):
+                # b <= MAX - a was established on this path (`assert!(rhs <= u64::MAX - x)`): the sum fits
+                hi = min(hi, (1 << a.w) - 1)
             if b0 == 'Sub' and TOP not in a.bits and TOP not in b.bits and bits_subset(b.bits, a.bits):
                 # b = a & mask: b <= a bit for bit, the difference cannot borrow
                 lo = max(lo, 0)
